@@ -335,6 +335,99 @@ def stage_verdicts(ws, ds):
 
 
 # ------------------------------------------------------------------------------------------------
+# stage: the decision functions of the macro, translated from its source and proved equal to the model's
+
+SLICE_FILES = ['bitfield/mod.rs', 'bit_size.rs', 'bitenum.rs']
+
+
+def probe_check(ws, lib):
+    """compile one small library against the real macro -> (accepted, first error messages)"""
+    pdir = ws.path('srcslice', 'probe')
+    os.makedirs(os.path.join(pdir, 'src'), exist_ok=True)
+    open(os.path.join(pdir, 'Cargo.toml'), 'w').write(CARGO_TOML % REPO)
+    shutil.copy(lockfile(), os.path.join(pdir, 'Cargo.lock'))
+    open(os.path.join(pdir, 'src', 'lib.rs'), 'w').write(lib)
+    with cargo_lock():
+        p = run(['cargo', 'check', '--offline', '--lib', '--message-format=json'], cwd=pdir,
+                env={'CARGO_TARGET_DIR': ws.target}, check=False, timeout=1200)
+    msgs = []
+    for line in p.stdout.splitlines():
+        if line.startswith('{'):
+            try:
+                m = json.loads(line)
+            except ValueError:
+                continue
+            if m.get('reason') == 'compiler-message' and m['message'].get('level') == 'error' and \
+                    not m['message'].get('message', '').startswith('aborting due to'):
+                msgs.append(m['message'].get('message'))
+    return p.returncode == 0, msgs[:3]
+
+
+def stage_srcslice(ws):
+    if ws.done('srcslice'):
+        return ws.load('srcslice')
+    from . import srcmodel
+    from concurrent.futures import ThreadPoolExecutor
+    t0 = time.time()
+    sdir = ws.path('srcslice')
+    shutil.rmtree(sdir, ignore_errors=True)
+    os.makedirs(sdir)
+    xl = {}
+    for rel in SLICE_FILES:
+        p = run([xlate_bin(), os.path.join(REPO, 'bitbybit', 'src', rel)], check=False, timeout=120)
+        try:
+            j = json.loads(p.stdout.splitlines()[0])
+            if j.get('ok'):
+                xl[rel] = j
+        except (ValueError, IndexError):
+            pass
+    units = srcmodel.generate(xl)
+
+    def compile_unit(iu):
+        i, u = iu
+        if 'coq' not in u:
+            u['status'] = 'untranslatable'
+            return
+        f = os.path.join(sdir, 'U%d.v' % i)
+        open(f, 'w').write(u['coq'])
+        u['file'] = f
+        try:
+            p = subprocess.run(['coqc', '-noglob', '-Q', os.path.join(COQ, 'theories'), 'BB', f], stdout=subprocess.PIPE,
+                               stderr=subprocess.PIPE, text=True, timeout=600)
+            out, err, rc = p.stdout, p.stderr, p.returncode
+        except subprocess.TimeoutExpired:
+            out, err, rc = '', 'coqc timed out', 124
+        m = re.search(r'first_diff = (.*?)\n\s+: ', out, re.S)
+        u['first_diff'] = None if m is None or m.group(1).strip() == 'None' else ' '.join(m.group(1).split())
+        u['assumptions'] = 'closed' if 'Closed under the global context' in out else None
+        u['status'] = 'proved' if rc == 0 and u['assumptions'] == 'closed' and u['first_diff'] is None else 'unproved'
+        if u['status'] != 'proved':
+            u['coqc'] = (err or out)[-1500:]
+        del u['coq']
+    with ThreadPoolExecutor(8) as ex:
+        list(ex.map(compile_unit, enumerate(units)))
+    # a unit that no longer checks: look for a declaration on which the real macro departs from the documented rules
+    for u in units:
+        if u['status'] == 'proved':
+            continue
+        u['probes'] = 0
+        u['witness'] = None
+        for pr in srcmodel.probes_for(u['label'], u.get('first_diff')):
+            u['probes'] += 1
+            acc, msgs = probe_check(ws, pr['lib'])
+            if acc != pr['expect_accept']:
+                u['witness'] = {'what': pr['what'] + (' — but it is rejected' if pr['expect_accept'] else ' — but it compiles'),
+                                'program': pr['lib'], 'rustc': msgs}
+                break
+    res = {'units': units, 'wall_s': time.time() - t0,
+           'proved': sum(1 for u in units if u['status'] == 'proved'), 'n': len(units)}
+    ws.mark('srcslice', res)
+    log('source slice: %d/%d functions translated from the source and proved equal to the model for every argument, %.1fs' % (
+        res['proved'], res['n'], res['wall_s']))
+    return res
+
+
+# ------------------------------------------------------------------------------------------------
 # stage: translate dumps
 
 def stage_xlate(ws, names):
